@@ -10,7 +10,7 @@ PASS = re.compile(
     r"^std::iter::Iterator::(next|enumerate|by_ref|rev|cloned|copied|peekable|skip|take|chain|flatten|map|filter|filter_map|collect)$|"
     r"::(unwrap|expect|unwrap_or|unwrap_or_default|unwrap_or_else|ok|ok_or|as_path|as_str|as_bytes|as_os_str|as_slice|to_owned|to_string|to_path_buf|to_os_string|to_vec|into_boxed_slice|into_inner|copied|cloned)$|"
     r"^<.* as std::ops::Try>::branch$|^<.* as std::ops::FromResidual.*>::from_residual$|"
-    r"^std::path::Path::new$|^std::boxed::Box::<T(, A)?>::new$|^std::sync::Arc::<T(, A)?>::new$|::to_string_lossy$|"
+    r"^std::path::Path::new$|^std::path::Path::with_extension$|^std::boxed::Box::<T(, A)?>::new$|^std::sync::Arc::<T(, A)?>::new$|::to_string_lossy$|"
     r"^<.* as std::string::ToString>::to_string$|^<.* as std::borrow::ToOwned>::to_owned$|^std::option::Option::<T>::(map|and_then|take|replace|get_or_insert_with)$|"
     r"^std::result::Result::<T, E>::(map|map_err|and_then|or_else|inspect_err)$|^std::mem::(take|replace)$)")
 
